@@ -19,11 +19,11 @@ TRUSTED_BASE_COMMON = [
     "no axioms declared by this development (grep + Print Assumptions in every run)",
     "extraction: Require Import ExtrOcamlBasic only (bool, option, list, prod, unit, sumbool -> OCaml types); "
     "our own directives: Extract Inlined Constant andb => (&&), orb => (||) (lazy evaluation of total pure arguments); "
-    "no other Extract Constant / Extract Inductive; nat, positive, Z stay extracted inductives",
+    "no other Extract Constant / Extract Inductive; nat, positive, Z, string, ascii stay extracted inductives",
     "OCaml 4.13.1 compiler and ocaml/judge.ml (token <-> Z conversion, dispatch by api name)",
     "harness/drive.c (marshals CMR objects to integer records), gcc, the case generators in tools/props/*.py",
     "/repo/src/cmr is code under test: tied to the Coq model only through the correspondence run "
-    "(and, for translated leaves, through coq/Gen regenerated by tools/c2gallina.py)",
+    "(and, for the translated leaf functions, through coq/LeafGen.v regenerated from the C text by tools/c2gallina.py on every run: clang's JSON AST, the translator and coq/LeafSem.v are trusted and validated by the `leaf` stream)",
 ]
 
 
